@@ -118,7 +118,8 @@ def run(ctx):
                             "ObjectReceiver::complete; error/interrupted only from ObjectReceiver::error; the session state is written "
                             "only by init_object_writer/complete/error", "WMC+WWF")
     wmc(r1, prog, r"^receiver::writer::ObjectWriter::open$", [r"^receiver::objectreceiver::ObjectReceiver::init_object_writer$"])
-    wmc(r1, prog, r"^receiver::writer::ObjectWriter::write$", [r"^receiver::blockwriter::BlockWriter::(write_pkt_cenc_null|decoder_read)$"])
+    # (BlockWriter::write itself when the one-line helper write_pkt_cenc_null was folded into it)
+    wmc(r1, prog, r"^receiver::writer::ObjectWriter::write$", [r"^receiver::blockwriter::BlockWriter::(write_pkt_cenc_null|decoder_read|write)$"])
     wmc(r1, prog, r"^receiver::writer::ObjectWriter::complete$", [r"^receiver::objectreceiver::ObjectReceiver::complete$"])
     wmc(r1, prog, r"^receiver::writer::ObjectWriter::(error|interrupted)$", [r"^receiver::objectreceiver::ObjectReceiver::error$"],
         skip_callers=[r" as receiver::writer::ObjectWriter>::"])
